@@ -489,6 +489,15 @@ func runHist(b *binding, casesPath string, tr *vh.Trace, shard, shards int) {
 
 // ---------------------------------------------------------------- concurrent workers
 
+var forceHow = -1
+
+func pickHow(r *rand.Rand) int {
+	if forceHow >= 0 {
+		return forceHow
+	}
+	return r.Intn(7)
+}
+
 func runStress(b *binding, tr *vh.Trace, rounds, workers int, seed int64) {
 	rng := rand.New(rand.NewSource(seed))
 	cfgs := [][2]int{{2, 0}, {0, 0}, {3, 2}, {1, 0}, {2, 1}}
@@ -586,7 +595,7 @@ func runStress(b *binding, tr *vh.Trace, rounds, workers int, seed int64) {
 					w.mu.Lock()
 					w.all = append(w.all, &lease{conn: conn, sender: sender, recv: rc, lst: lst})
 					w.mu.Unlock()
-					jobs.Store(conn.LocalAddr().String(), &job{how: lr.Intn(7), lst: lst, rc: rc, send: sender, conn: conn})
+					jobs.Store(conn.LocalAddr().String(), &job{how: pickHow(lr), lst: lst, rc: rc, send: sender, conn: conn})
 					sender.AppendHeaders(ctx, b.request(), true)
 					select {
 					case <-lst.destroyed:
@@ -609,7 +618,7 @@ func runStress(b *binding, tr *vh.Trace, rounds, workers int, seed int64) {
 		}
 		overlap := 0
 		e := vh.Ev{"ev": "audit", "ok": nOK, "refused": nRefused, "stuck": nStuck, "dirtylease": dirtyLease,
-			"maxopen": int(atomic.LoadInt32(&b.up.MaxOpen)), "dialled": len(w.reg.Conns())}
+			"maxopen": w.reg.MaxOpen(), "upmaxopen": int(atomic.LoadInt32(&b.up.MaxOpen)), "dialled": len(w.reg.Conns())}
 		for _, c := range w.reg.Conns() {
 			if uc := b.up.Find(c.LocalAddr().String(), time.Millisecond); uc != nil && atomic.LoadInt32(&uc.Overlap) == 1 {
 				overlap++
@@ -631,6 +640,7 @@ func main() {
 	shards := flag.Int("shards", 1, "number of shards")
 	rounds := flag.Int("rounds", 10, "stress rounds")
 	workers := flag.Int("workers", 6, "stress workers")
+	flag.IntVar(&forceHow, "how", -1, "stress: force the way every exchange ends (debugging)")
 	flag.Parse()
 	log.DefaultLogger.SetLogLevel(log.FATAL)
 	log.Proxy.SetLogLevel(log.FATAL)
